@@ -1,6 +1,8 @@
 """C04 — ThresholdOptimizer equalises the constrained metric exactly on the training data."""
+import math
 from fractions import Fraction as F
 
+from .. import proto
 from .. import thr_common as tc
 from ..core import Check, Problem, register
 
@@ -13,7 +15,14 @@ def common_judge(case, o, mo, pid):
     probs = []
     ctx = {"view": None, "m0": None, "m1": None, "i_impl": None, "grid": case["grid"]}
     inq = tc.in_quantifier(case)
+    qline = None
+    if mo and case.get("query"):
+        mo, qline = mo[:-1], mo[-1]          # last line = fit -> predict on the query rows (op thrp.*)
     if "crash" in o:
+        if inq:
+            # inside the quantifier fit / _pmf_predict / predict must succeed: a crash is a violation with this very input
+            return [Problem("property", f"fit / predict crashed although every group has both labels: {o}",
+                            f"{pid}.fit-accepts")], ctx
         return [Problem("correspondence", f"implementation crashed: {o}", f"{pid}.impl-total")], ctx
     if "error" in o:
         if inq:
@@ -33,6 +42,15 @@ def common_judge(case, o, mo, pid):
     if o["keys"] != sorted(str(tc.gname(case, g)) for g in gs):
         probs.append(Problem("property", f"interpolation_dict keys {o['keys']} are not the groups", f"{pid}.keys"))
         return probs, ctx
+    # NaN / inf anywhere in the fitted rule or the reported pmf (0/0 in the interpolation, p_ignore, ...) is a violation
+    # by itself: the rule is not a randomised threshold rule at all
+    nonfinite = [f"group {g}: {k}={o['rules'][str(g)][k]!r}" for g in gs for k in ("p0", "p1", "p_ignore", "const")
+                 if o["rules"][str(g)][k] is not None and not math.isfinite(o["rules"][str(g)][k])]
+    nonfinite += [f"_pmf_predict row {k}: {v!r}" for k, v in enumerate(o["pmf1"]) if not math.isfinite(v)][:3]
+    if nonfinite:
+        probs.append(Problem("property", "fitted rule / pmf is not finite: " + "; ".join(nonfinite[:4]),
+                             "C04.rule-is-mixture"))
+        return probs, ctx
     view = tc.impl_view(case, o)
     ctx["view"] = view
     for g in gs:
@@ -48,6 +66,8 @@ def common_judge(case, o, mo, pid):
         if abs(r["p0"] + r["p1"] - 1) > TOL or r["p0"] < -TOL or r["p1"] < -TOL:
             probs.append(Problem("property", f"group {g}: p0={r['p0']} p1={r['p1']} is not a mixture",
                                  "C04.rule-is-mixture"))
+    if case.get("query") and "qpmf1" in o:
+        probs += query_oracle(case, o)
     exs = [view[g]["ex"] for g in gs]
     if max(exs) - min(exs) > TOL:
         probs.append(Problem("property", f"expected {xm} differs between groups: " +
@@ -128,7 +148,100 @@ def common_judge(case, o, mo, pid):
         else:
             probs.append(Problem("correspondence", f"group {g}: implementation rule {ir} vs model rule {mr}",
                                  f"{pid}.rule"))
+    if qline is not None and "qpmf1" in o:
+        probs += query_correspondence(case, o, m1, qline, pid, ctx)
     return probs, ctx
+
+
+F18_MARK = "[fitted-threshold-equals-training-score]"
+
+
+def mark_f18(case, o, probs):
+    """append F18_MARK to the relation of every problem of a case in which the implementation's fitted rule of some group
+    uses, with weight > WTOL, a finite threshold equal to one of that group's training scores"""
+    if not probs or "rules" not in o:
+        return probs
+    gs, rows = tc.groups_of(case)
+    hit = False
+    for g in gs:
+        r = o["rules"].get(str(g))
+        if not r:
+            continue
+        scores = {s for s, _ in rows[g]}
+        for w, op in ((r["p0"], r["op0"]), (r["p1"], r["op1"])):
+            t = tc._thr_val(op[1])
+            if isinstance(t, F) and math.isfinite(w) and abs(w) > tc.WTOL and t in scores:
+                hit = True
+    if hit:
+        for p in probs:
+            if p.kind in ("property", "correspondence"):
+                p.relation = (p.relation or "") + F18_MARK
+    return probs
+
+
+def query_oracle(case, o):
+    """PREDICT path, implementation alone: `_pmf_predict` on rows the fit has not seen must be the fitted rule of the
+    row's own group applied to the row's own score (0 for an unseen sensitive-feature value), rows must sum to 1, and
+    `predict(random_state=s)` must be `[p >= u]` for the replayed draws, reproducibly."""
+    probs = []
+    q = case["query"]
+    us = tc.query_draws(case)
+    if len(o["qpmf1"]) != len(q) or len(o["qlabels"]) != len(q):
+        return [Problem("property", f"predict path returned {len(o['qpmf1'])} pmf rows / {len(o['qlabels'])} labels for "
+                        f"{len(q)} query rows", "C04.predict-shape")]
+    for k, (g, s) in enumerate(q):
+        p1, p0 = o["qpmf1"][k], o["qpmf0"][k]
+        want = F(0) if g == -1 else tc.prob_of_rule(o["rules"][str(g)], F(s))
+        if not (math.isfinite(p1) and abs(p1 - float(want)) <= TOL):
+            probs.append(Problem("property", f"query row {k} (group {g}, score {s}): _pmf_predict gives {p1!r}, the fitted rule "
+                                 f"of its group {o['rules'].get(str(g))} gives {float(want)!r}", "C04.pmf-matches-rule"))
+            break
+        if abs(p0 + p1 - 1) > TOL or p1 < -TOL or p1 > 1 + TOL:
+            probs.append(Problem("property", f"query row {k}: pmf row ({p0!r}, {p1!r}) is not a distribution", "C04.pmf-valid"))
+            break
+        lab = 1 if p1 >= float(us[k]) else 0
+        if o["qlabels"][k] != lab:
+            probs.append(Problem("property", f"query row {k}: predict(random_state={case.get('pseed')}) returned "
+                                 f"{o['qlabels'][k]} but P(1)={p1!r} and the draw u={float(us[k])!r} give {lab}",
+                                 "C04.predict-follows-pmf"))
+            break
+    if "qlabels2" in o and o["qlabels"] != o["qlabels2"]:
+        probs.append(Problem("property", "predict with the same seed (int / RandomState) is not reproducible",
+                             "C04.predict-follows-pmf"))
+    return probs
+
+
+def query_correspondence(case, o, m1, qline, pid, ctx):
+    """fit -> predict in the Lean model (op thrp.*) vs the implementation, on the query rows"""
+    probs = []
+    q = case["query"]
+    if qline in ("degenerate", "bad-op"):
+        return [tc.model_problem(f"model predict path answered {qline}", pid)]
+    ptok, ltok = qline.split(" ")
+    mp = proto.p_list(ptok)
+    ml = [int(v) for v in ltok.split(",")] if ltok != "-" else []
+    gs, _ = tc.groups_of(case)
+    us = tc.query_draws(case)
+    pos = {g: j for j, g in enumerate(gs)}
+    compared = 0
+    for k, (g, s) in enumerate(q):
+        want = F(0) if g == -1 else tc.prob_of_rule(m1["rules"][pos[g]], F(s))
+        if mp[k] != want:
+            probs.append(tc.model_problem(f"model _pmf_predict of query row {k} is {mp[k]}, its own rule gives {want}", pid))
+            continue
+        if len(ml) == len(q) and ml[k] != (1 if mp[k] >= us[k] else 0):
+            probs.append(tc.model_problem(f"model label of query row {k} is {ml[k]} for p={mp[k]} u={us[k]}", pid))
+        if g != -1 and not tc.same_rule(o["rules"][str(g)], m1["rules"][pos[g]]):
+            continue          # a different (collinear / tie) mixture: compared on the training rows only
+        compared += 1
+        if abs(o["qpmf1"][k] - float(mp[k])) > TOL:
+            probs.append(Problem("correspondence", f"query row {k} (group {g}, score {s}): implementation P(1)="
+                                 f"{o['qpmf1'][k]!r}, model (fit then predict) {float(mp[k])!r}", f"{pid}.predict-vs-model"))
+        elif len(ml) == len(q) and abs(float(mp[k]) - float(us[k])) > 1e-9 and ml[k] != o["qlabels"][k]:
+            probs.append(Problem("correspondence", f"query row {k}: implementation label {o['qlabels'][k]}, model label "
+                                 f"{ml[k]} (p={float(mp[k])!r}, u={float(us[k])!r})", f"{pid}.predict-vs-model"))
+    ctx["query_compared"] = compared
+    return probs
 
 
 def stash_tags(o, ctx):
@@ -138,6 +251,8 @@ def stash_tags(o, ctx):
         t.append("corr:rule-identical-groups")
     if ctx.get("collinear_alt"):
         t.append("corr:collinear-alternative-mixture")
+    if ctx.get("query_compared"):
+        t.append("corr:predict-path-rows-compared")
     m0, m1 = ctx.get("m0"), ctx.get("m1")
     if m0 is not None and m1 is not None:
         t.append("corr:argmax-same-index" if m0["i"] == m1["i"] else "corr:argmax-tie-other-index")
@@ -170,6 +285,17 @@ class ThresholdCheck(Check):
     def shrink(self, case):
         return tc.shrink_case(case)
 
+    def known(self, case, problem, entries):
+        # F18: a score pair whose float midpoint is not strictly between the two scores (adjacent doubles) AND the fitted
+        # rule really uses, with non-zero weight, a threshold equal to a training score of its own group (marker set by
+        # the judge from the implementation's interpolation_dict); any other violation on such data is still reported
+        if problem.kind in ("property", "correspondence") and F18_MARK in (problem.relation or "") \
+                and tc.midpoint_rounds_onto_score(case):
+            for e in entries:
+                if e.get("predicate") == "midpoint_rounds_onto_score":
+                    return e
+        return None
+
     def impl(self, case):
         return tc.run_impl(case)
 
@@ -200,14 +326,20 @@ class ThresholdCheck(Check):
 class CHECK(ThresholdCheck):
     pid = "C04"
     small = False
-    technique = ("Lean 4 theorems over the Threshold model (sweep, monotone-chain hull, interpolation index, fit) with "
-                 "translator-generated METRIC_DICT / confusion tables + compiled-driver correspondence with "
-                 "ThresholdOptimizer.fit / _pmf_predict")
+    technique = ("Lean 4 theorems over the Threshold model (sweep, monotone-chain hull, interpolation index, fit, fit -> "
+                 "predict), the model being DEFINED over four files lifted from the source on every run: METRIC_DICT / "
+                 "confusion tables, the geometric core of _tradeoff_curve_utilities.py (hull turn test, interpolation "
+                 "weights and index, threshold candidates, sort orders), the predict path (ThresholdOperation.__call__, "
+                 "_pmf_predict, predict) and the fit glue (grid, group frequency, accumulation, idxmax, p_ignore) + "
+                 "compiled-driver correspondence with ThresholdOptimizer.fit / _pmf_predict / predict")
     level_text = ("Theorems (all datasets with both labels per group, any number of groups, every constraint / "
                   "objective / flip / grid size, no size bound): every tradeoff point is the metric pair of its own "
                   "ThresholdOperation, hull invariants of the monotone chain, non-degenerate interpolation bracket, "
                   "and exact equality in Rat of the expected constrained metric across groups (parity_simple, "
-                  "parity_EO incl. p_ignore). Tie: fit + interpolation_dict + _pmf_predict vs the compiled Lean model "
+                  "parity_EO incl. p_ignore), restated for the pmf that _pmf_predict computes from the stored "
+                  "interpolation_dict (fit_predict_consistent_simple / _EO); src_* theorems pin what the lifted source "
+                  "text has to say (turn test <=, p0/p1 and their vertices, searchsorted side and correction, midpoint "
+                  "thresholds, sort keys). Tie: fit + interpolation_dict + _pmf_predict vs the compiled Lean model "
                   "on generated and exhaustively enumerated small datasets; independent Fraction oracle decides "
                   "violations from _pmf_predict alone.")
     design_ref = "DESIGN.md section 4, C04"
@@ -221,7 +353,11 @@ class CHECK(ThresholdCheck):
             "{1,2,3,5,7,10,100,1000}; y / sensitive_features as ndarray (1-d or (n,1)), list (sensitive features also as list of 1-element "
             "lists), Series or DataFrame (y column named or 0), group names str or int; for the pandas containers the index LABELS of y, sensitive_features and X are "
             "drawn independently from {default, a non-identity permutation of 0..n-1, offset +100, shuffled strings} "
-            "while rows stay paired by position; rows shuffled. distinct = distinct (configuration, multiset of rows); non-trivial = inside the "
+            "while rows stay paired by position; rows shuffled. ~22% of the cases are NEAR-TIE datasets: ladders of pairwise "
+            "distinct, exactly representable scores k/8 - j*2^t*ulp (t = 1..44, i.e. relative gaps 2^-51 .. 2^-8) mixed with "
+            "exact ties and well separated scores. Every case also carries predict-time QUERY rows (training rows, scores "
+            "exactly on a candidate threshold, just above / below a score or threshold at a random small scale, +-1000, "
+            "an unseen sensitive-feature value) for _pmf_predict and predict(random_state=seed), draws replayed. distinct = distinct (configuration, multiset of rows); non-trivial = inside the "
             "quantifier with >= 2 groups. thorough additionally enumerates ALL multisets of (group,label,level) rows "
             "up to size 7 over 2 groups x 3 levels (14445 datasets) and up to size 8 over 3 groups x 2 levels (3568), the 62 (constraint, objective, flip) configurations and grid sizes cycling over the enumeration.")
     explanation = ("parity theorems proved over the Lean model for all inputs; correspondence compares the "
@@ -233,7 +369,10 @@ class CHECK(ThresholdCheck):
                "modelled by their specification (stable lexicographic sort, count of values <= g, i/N, first maximum)",
                "np.around(.,15) before the equalized-odds arg-max and IEEE rounding are not modelled (exact arg-max; "
                "ties within 1e-8 accepted)",
-               "the pass-through estimator (predict returns the score column) stands for an arbitrary prefit scorer")
+               "the pass-through estimator (predict returns the score column) stands for an arbitrary prefit scorer",
+               "IEEE rounding of the threshold midpoint is not modelled: the generator keeps every midpoint of two near-tie "
+               "scores exactly representable (t >= 1); the remaining case (adjacent doubles) is known finding F18",
+               "comparisons with +-inf thresholds, numpy boolean masks and RandomState.rand are modelled by their specification")
     assumptions = ("every group contains both labels", "scores are finite", "grid_size >= 1")
 
     def exhaustive(self, tier):
@@ -244,7 +383,7 @@ class CHECK(ThresholdCheck):
     def judge(self, case, o, mo):
         probs, ctx = common_judge(case, o, mo, "C04")
         stash_tags(o, ctx)
-        return probs
+        return tc.cap_when_tie_broken(mark_f18(case, o, probs))
 
     def signature(self, case, o):
         return super().signature(case, o)
